@@ -1,7 +1,7 @@
 from __future__ import annotations
 
 from ._bit_vector import BitVector, BitOrder
-from ._integer import Integer
+from ._integer import Integer, _int_truncdiv, _int_rem
 from ._boolean import Null, Full
 
 from ._intrinsic import _intrinsic
@@ -288,7 +288,7 @@ class Signed(BitVector):
         if rhs == 0:
             return Signed[result_width]()
 
-        quotient = int(lhs / rhs)
+        quotient = _int_truncdiv(lhs, rhs)
 
         if quotient == 2 ** (result_width - 1):
             # min / -1 is the only quotient that overflows, it wraps like the generated VHDL
@@ -312,7 +312,7 @@ class Signed(BitVector):
         if rhs == 0:
             return Signed[result_width]()
 
-        quotient = int(lhs / rhs)
+        quotient = _int_truncdiv(lhs, rhs)
 
         if quotient == 2 ** (result_width - 1):
             # min / -1 is the only quotient that overflows, it wraps like the generated VHDL
@@ -376,7 +376,7 @@ class Signed(BitVector):
         if rhs == 0:
             return Signed[result_width]()
 
-        return Signed[result_width](lhs - rhs * int(lhs / rhs))
+        return Signed[result_width](_int_rem(lhs, rhs))
 
     @_intrinsic
     def _cohdl_rrem_(self, lhs: Signed) -> Signed:
@@ -396,7 +396,7 @@ class Signed(BitVector):
         if rhs == 0:
             return Signed[result_width]()
 
-        return Signed[result_width](lhs - rhs * int(lhs / rhs))
+        return Signed[result_width](_int_rem(lhs, rhs))
 
     @_intrinsic
     def __lshift__(self, rhs) -> Signed:
